@@ -597,15 +597,14 @@ func DrawVerifyCase(t *rapid.T) VerifyCase {
 				tv.SetInt64(5)
 			}
 		}
-		dd, _, ok := MidwayInfinity(t, "mid", sv, tv)
+		pk, _, ok := MidwaySpecial(t, "mid", sv, tv)
 		rr := modn(new(big.Int).Sub(tv, sv))
 		if !ok || rr.Sign() == 0 {
 			c.E, c.R, c.S = mk(false)
 			c.Class, c.Special = "valid", false
 			break
 		}
-		var pk sm2ref.Point
-		c.Px, c.Py, pk = Pub(dd)
+		c.Px, c.Py = gen.Pad32(pk.X), gen.Pad32(pk.Y)
 		R := sm2ref.Add(sm2ref.Mul(sv, sm2ref.G), sm2ref.Mul(tv, pk))
 		if R.Inf {
 			c.E, c.R, c.S = mk(false)
@@ -781,4 +780,117 @@ func MidwayInfinity(t *rapid.T, label string, g, tt *big.Int) (d *big.Int, where
 		return nil, "", false
 	}
 	return d, e.name, true
+}
+
+// MidwaySpecial generalises MidwayInfinity: with the same model of the evaluation order it returns a point P such that, in the
+// computation of [g]G + [t]P, the accumulator holds a SPECIAL value right before a chosen inner addition: the point at infinity, one of
+// the two points with x = 0 ((0, +-sqrt b): finite points a "x is zero means empty" shortcut mistakes for infinity), the very point
+// that is about to be added (the doubling case of an addition formula) or its negative (the sum is infinity). P is solved as
+// [1/beta](Q - [alpha]G); no discrete logarithm of Q is needed. The oracle stays the reference multiplication.
+func MidwaySpecial(t *rapid.T, label string, g, tt *big.Int) (P sm2ref.Point, where string, ok bool) {
+	naf := make([]int64, 258)
+	k := new(big.Int).Set(tt)
+	for i := 0; k.Sign() > 0 && i < 258; i++ {
+		if k.Bit(0) == 1 {
+			dgt := int64(new(big.Int).And(k, big.NewInt(31)).Int64())
+			if dgt >= 16 {
+				dgt -= 32
+			}
+			naf[i] = dgt
+			k.Sub(k, big.NewInt(dgt))
+		}
+		k.Rsh(k, 1)
+	}
+	type ev struct {
+		alpha, beta *big.Int // accumulator = alpha*G + beta*P right BEFORE this addition
+		comb        *big.Int // addend is [comb]G, or
+		digit       int64    // addend is [digit]P
+		name        string
+	}
+	var evs []ev
+	alpha, beta := new(big.Int), new(big.Int)
+	add := func(comb *big.Int, digit int64, name string) {
+		evs = append(evs, ev{new(big.Int).Set(alpha), new(big.Int).Set(beta), comb, digit, name})
+		if comb != nil {
+			alpha.Add(alpha, comb)
+		} else {
+			beta.Add(beta, big.NewInt(digit))
+		}
+	}
+	for i := 256; i >= 0; i-- {
+		alpha.Lsh(alpha, 1)
+		beta.Lsh(beta, 1)
+		if i < 14 {
+			for j := 0; j < 3; j++ {
+				v := new(big.Int)
+				for b := 0; b < 6; b++ {
+					if g.Bit(b*42+i+j*14+4) == 1 {
+						v.SetBit(v, b*42+j*14+4, 1)
+					}
+				}
+				if v.Sign() != 0 {
+					add(v, 0, fmt.Sprintf("before the comb addition at position %d, sub-table %d", i, j))
+				}
+			}
+		}
+		if naf[i] != 0 {
+			add(nil, naf[i], fmt.Sprintf("before the NAF addition at position %d", i))
+		}
+	}
+	if low := new(big.Int).And(g, big.NewInt(15)); low.Sign() != 0 {
+		add(low, 0, "before the remainder-table addition")
+	}
+	var cands []ev
+	for _, e := range evs {
+		if new(big.Int).Mod(e.beta, N).Sign() != 0 {
+			cands = append(cands, e)
+		}
+	}
+	if len(cands) == 0 {
+		return sm2ref.Point{}, "", false
+	}
+	e := cands[len(cands)-1-gen.Uniform(t, label+".event", 0, min(len(cands)-1, 45))]
+	target := gen.Pick(t, label+".target", "infinity", "x=0,+y", "x=0,-y", "the addend itself", "minus the addend")
+	binv := new(big.Int).ModInverse(new(big.Int).Mod(e.beta, N), N)
+	var Q sm2ref.Point
+	switch target {
+	case "infinity":
+		Q = sm2ref.Point{Inf: true}
+	case "x=0,+y", "x=0,-y":
+		q, okq := sm2ref.LiftX(big.NewInt(0))
+		if !okq {
+			return sm2ref.Point{}, "", false
+		}
+		if target == "x=0,-y" {
+			q = sm2ref.Neg(q)
+		}
+		Q = q
+	default:
+		sign := int64(1)
+		if target == "minus the addend" {
+			sign = -1
+		}
+		if e.comb != nil {
+			Q = sm2ref.Mul(modn(new(big.Int).Mul(e.comb, big.NewInt(sign))), sm2ref.G)
+		} else {
+			// accumulator = +-[digit]P:  alpha + beta*d = +-digit*d  =>  d = -alpha / (beta -+ digit)
+			den := modn(new(big.Int).Sub(e.beta, big.NewInt(sign*e.digit)))
+			if den.Sign() == 0 || new(big.Int).Mod(e.alpha, N).Sign() == 0 {
+				return sm2ref.Point{}, "", false
+			}
+			d := new(big.Int).ModInverse(den, N)
+			d.Mul(d, e.alpha).Neg(d)
+			modn(d)
+			if d.Sign() == 0 {
+				return sm2ref.Point{}, "", false
+			}
+			return sm2ref.Mul(d, sm2ref.G), "accumulator = " + target + " " + e.name, true
+		}
+	}
+	// P = [1/beta](Q - [alpha]G)
+	P = sm2ref.Mul(binv, sm2ref.Add(Q, sm2ref.Neg(sm2ref.Mul(modn(new(big.Int).Set(e.alpha)), sm2ref.G))))
+	if P.Inf {
+		return sm2ref.Point{}, "", false
+	}
+	return P, "accumulator = " + target + " " + e.name, true
 }
